@@ -53,6 +53,8 @@ type caseDesc struct {
 	Prefix       string      `json:"prefix,omitempty"`
 	BeforeChange bool        `json:"before_change,omitempty"`
 	Listeners    int         `json:"listeners,omitempty"` // number of BeforeChange listeners (0 with BeforeChange = 1)
+	NoOnChange   bool        `json:"no_on_change,omitempty"`    // no OnChange listener is registered at all
+	OnChangeMore int         `json:"on_change_more,omitempty"`  // OnChange listeners beyond the first
 	NewID        bool        `json:"newid,omitempty"`
 	Txns         []txnDesc   `json:"txns,omitempty"`       // sequential history
 	Goroutines   [][]txnDesc `json:"goroutines,omitempty"` // concurrent history: one list per goroutine
@@ -127,6 +129,14 @@ func (cd caseDesc) nl() int {
 		return 1
 	}
 	return cd.Listeners
+}
+
+// noc is the number of OnChange listeners of a store configuration.
+func (cd caseDesc) noc() int {
+	if cd.NoOnChange {
+		return 0
+	}
+	return 1 + cd.OnChangeMore
 }
 
 // vetoAt is the 1-based index of the first listener that vetoes the call (0 = none).
@@ -316,8 +326,10 @@ type bcRec struct {
 type activeOp struct {
 	desc  opDesc
 	isDel bool
-	cbs   []cbRec
+	cbs   []cbRec         // what OnChange listener 1 saw
 	bcs   []bcRec
+	ocSeq []int           // OnChange listener indices in call order
+	ocs   map[int][]cbRec // what the OnChange listeners beyond the first saw
 }
 
 var errVeto = errors.New("vetoed by BeforeChange")
@@ -352,10 +364,19 @@ func optJSON(v interface{}) *string {
 	return &s
 }
 
-func (r *rig) onChange(id string, before, after interface{}) {
+// onChange is OnChange listener k (1-based, registration order).
+func (r *rig) onChange(k int, id string, before, after interface{}) {
 	a := r.current()
 	if a == nil {
 		r.note("OnChange ran on a goroutine that is not inside a mutating call (id " + id + ")")
+		return
+	}
+	a.ocSeq = append(a.ocSeq, k)
+	if k > 1 {
+		if a.ocs == nil {
+			a.ocs = map[int][]cbRec{}
+		}
+		a.ocs[k] = append(a.ocs[k], cbRec{id, optJSON(before), optJSON(after)})
 		return
 	}
 	a.cbs = append(a.cbs, cbRec{id, optJSON(before), optJSON(after)})
@@ -411,14 +432,20 @@ func newRig(cd caseDesc, db *badger.DB) *rig {
 			k := k
 			st.BeforeChange(func(id string, before, after interface{}) error { return r.beforeChange(k, id, before, after) })
 		}
-		st.OnChange(r.onChange)
+		for k := 1; k <= cd.noc(); k++ {
+			k := k
+			st.OnChange(func(id string, before, after interface{}) { r.onChange(k, id, before, after) })
+		}
 		r.st = st
 	default:
 		st := mockstore.NewStore()
 		if cd.NewID {
 			st.NewID = r.newID
 		}
-		st.OnChange(r.onChange)
+		for k := 1; k <= cd.noc(); k++ {
+			k := k
+			st.OnChange(func(id string, before, after interface{}) { r.onChange(k, id, before, after) })
+		}
 		r.st = st
 	}
 	return r
@@ -471,6 +498,19 @@ func (r *rig) call(txn interface{}, id string, o opDesc) (ob obs) {
 		r.mu.Unlock()
 		ob.cbs = a.cbs
 		ob.bcs = a.bcs
+		// every further OnChange listener sees what the first one saw, in registration order
+		n := r.cd.noc()
+		for i, k := range a.ocSeq {
+			if k != i%n+1 {
+				r.note(fmt.Sprintf("OnChange listeners of a %s on id %q were not called in registration order: %v", o.K, id, a.ocSeq))
+				break
+			}
+		}
+		for k := 2; k <= n; k++ {
+			if cbTerms(a.ocs[k]) != cbTerms(a.cbs) {
+				r.note(fmt.Sprintf("OnChange listener %d of a %s on id %q saw %s, listener 1 saw %s", k, o.K, id, cbTerms(a.ocs[k]), cbTerms(a.cbs)))
+			}
+		}
 	}()
 	rt := txn.(store.ReadTxn)
 	switch o.K {
@@ -607,7 +647,7 @@ func caseTerm(cd caseDesc, runs []txnRun, final []string) string {
 			ops = append(ops, opTerm(cd, ob))
 		}
 	}
-	return fmt.Sprintf("KC %s\n %s\n %s", kind, List(ops), List(final))
+	return fmt.Sprintf("KC %s %s\n %s\n %s", kind, Bool(cd.noc() > 0), List(ops), List(final))
 }
 
 // ---- BadgerDB scratch database, shared by all cases and wiped in between ----
@@ -886,6 +926,20 @@ type isoRun struct {
 	other []isoFail // anything else (at most 2)
 }
 
+// an isolation run registers at most one listener of each kind
+func (ir *isoRun) nl() int {
+	if ir.cd.nl() > 0 {
+		return 1
+	}
+	return 0
+}
+func (ir *isoRun) noc() int {
+	if ir.cd.noc() > 0 {
+		return 1
+	}
+	return 0
+}
+
 func (ir *isoRun) fail(id string, round int, where, expected, got string) {
 	ir.mu.Lock()
 	ir.fails++
@@ -1002,10 +1056,7 @@ func (ir *isoRun) owner(st store.Store, g int, d isoDesc) {
 		sample := round < isoSampleRounds
 		w := st.Write(sl.id)
 		sl.cbs, sl.bcs = nil, nil
-		nl := 0
-		if ir.cd.Store == "badger" {
-			nl = 1
-		}
+		nl, noc := ir.nl(), ir.noc()
 		// every mutation that reaches the listener stage calls the listener exactly once
 		checkBC := func(what string, reached bool) {
 			want := 0
@@ -1040,7 +1091,7 @@ func (ir *isoRun) owner(st store.Store, g int, d isoDesc) {
 			if sample {
 				sl.sample = append(sl.sample, fmt.Sprintf("IO (OUpdate %s %s %s) %s %s %s", B(sl.id), B(want), envVeto1, res, cbTerms(sl.cbs), bcTerms(sl.bcs)))
 			}
-		} else if unencRound := r.Chance(4); unencRound && nl > 0 && sl.last != nil {
+		} else if unencRound := r.Chance(4); unencRound && ir.cd.Store == "badger" && sl.last != nil {
 			// an Update with a value of the right type that the encoder rejects
 			var v interface{}
 			if ir.cd.Typed {
@@ -1069,6 +1120,34 @@ func (ir *isoRun) owner(st store.Store, g int, d isoDesc) {
 			if sample {
 				sl.sample = append(sl.sample, fmt.Sprintf("IO (OUpdate %s %s %s) %s %s %s", B(sl.id), B(want), envUnenc, res, cbTerms(sl.cbs), bcTerms(sl.bcs)))
 			}
+		} else if absentRound := r.Chance(30); absentRound && sl.last == nil {
+			// the id does not exist: Delete and Update must say so and change nothing
+			var err error
+			var term string
+			sl.pending = nil
+			if r.Bool() {
+				err = w.Delete()
+				term = fmt.Sprintf("(ODelete %s %s)", B(sl.id), envNone)
+			} else {
+				v := isoValue(ir.cd.Typed, ownerName, round, 8)
+				want := canon(v)
+				sl.pending = &want
+				err = w.Update(v)
+				term = fmt.Sprintf("(OUpdate %s %s %s)", B(sl.id), B(want), envNone)
+				if err == nil {
+					sl.last, sl.lastV = &want, v // the store says it committed the value
+				}
+			}
+			res, cls := classify(err)
+			if res != "ENotFound" {
+				ir.fail(sl.id, round, "Delete/Update of a missing id did not fail with not-found", "notfound", cls)
+			}
+			if len(sl.cbs) != 0 {
+				ir.fail(sl.id, round, "failed Update ran OnChange", "0", strconv.Itoa(len(sl.cbs)))
+			}
+			if sample {
+				sl.sample = append(sl.sample, fmt.Sprintf("IO %s %s %s %s", term, res, cbTerms(sl.cbs), bcTerms(sl.bcs)))
+			}
 		} else if sl.last != nil && r.Chance(3) {
 			// delete
 			sl.pending = nil
@@ -1079,8 +1158,8 @@ func (ir *isoRun) owner(st store.Store, g int, d isoDesc) {
 				ir.fail(sl.id, round, "Delete of an existing id failed", "nil error", cls)
 			} else {
 				sl.last, sl.lastV = nil, nil
-				if len(sl.cbs) != 1 {
-					ir.fail(sl.id, round, "Delete did not run OnChange exactly once", "1", strconv.Itoa(len(sl.cbs)))
+				if len(sl.cbs) != noc {
+					ir.fail(sl.id, round, "Delete did not run each OnChange listener exactly once", strconv.Itoa(noc), strconv.Itoa(len(sl.cbs)))
 				}
 			}
 			_ = before
@@ -1112,8 +1191,8 @@ func (ir *isoRun) owner(st store.Store, g int, d isoDesc) {
 				ir.fail(sl.id, round, kind+" that must succeed failed", "nil error", cls)
 			} else {
 				sl.last, sl.lastV = &want, v
-				if len(sl.cbs) != 1 {
-					ir.fail(sl.id, round, kind+" did not run OnChange exactly once", "1", strconv.Itoa(len(sl.cbs)))
+				if len(sl.cbs) != noc {
+					ir.fail(sl.id, round, kind+" did not run each OnChange listener exactly once", strconv.Itoa(noc), strconv.Itoa(len(sl.cbs)))
 				}
 			}
 			checkBC(kind, true)
@@ -1149,12 +1228,18 @@ func runIsolation(cd caseDesc) result {
 				st.SetType(isoItem{})
 			}
 			st.SetPrefix(cd.Prefix)
-			st.BeforeChange(ir.beforeChange)
-			st.OnChange(ir.onChange)
+			if ir.nl() > 0 {
+				st.BeforeChange(ir.beforeChange)
+			}
+			if ir.noc() > 0 {
+				st.OnChange(ir.onChange)
+			}
 			return st
 		}
 		st := mockstore.NewStore()
-		st.OnChange(ir.onChange)
+		if ir.noc() > 0 {
+			st.OnChange(ir.onChange)
+		}
 		return st
 	}
 	if cd.Store == "badger" {
@@ -1197,8 +1282,9 @@ func runIsolation(cd caseDesc) result {
 	}
 	kind := "(SMock false)"
 	if cd.Store == "badger" {
-		kind = "(SBadger " + B(cd.Prefix) + " 1%nat)"
+		kind = "(SBadger " + B(cd.Prefix) + " " + Nat(ir.nl()) + ")"
 	}
+	kind += " " + Bool(ir.noc() > 0)
 	res.dist["iso_goroutines"] += d.Goroutines
 	res.dist["iso_rounds"] += d.Goroutines * d.Rounds
 	res.dist["iso_failures"] += ir.fails
@@ -1230,6 +1316,8 @@ func runIsolation(cd caseDesc) result {
 			code = "V4 a BeforeChange veto did not fail"
 		} else if strings.HasPrefix(f.Where, "vetoed Update ran OnChange") || strings.HasPrefix(f.Where, "failed Update ran OnChange") {
 			code = "V5"
+		} else if strings.HasPrefix(f.Where, "Delete/Update of a missing id") {
+			code = "V3 Update/Delete on a missing id did not fail with not-found"
 		} else if strings.HasPrefix(f.Where, "Update with a value that cannot be encoded") {
 			code = "V4 a value that cannot be encoded did not fail"
 		}
@@ -1241,8 +1329,11 @@ func runIsolation(cd caseDesc) result {
 	return res
 }
 
-func genIsolation(r *Rng, store string, typed bool, prefix string, rounds int) caseDesc {
+// observers: 0 both kinds of listener, 1 none at all, 2 only BeforeChange, 3 only OnChange
+func genIsolation(r *Rng, store string, typed bool, prefix string, rounds int, observers int) caseDesc {
 	return caseDesc{Store: store, Typed: typed, Prefix: prefix,
+		BeforeChange: store == "badger" && (observers == 0 || observers == 2), Listeners: 1,
+		NoOnChange:   observers == 1 || observers == 2,
 		Isolation: &isoDesc{Goroutines: 8 + r.Intn(9), Rounds: rounds, Seed: r.Next() % 1000000}}
 }
 
@@ -1312,9 +1403,24 @@ var existKinds = []string{"create", "update", "update", "update", "update", "del
 
 func genConfig(r *Rng) caseDesc {
 	if r.Chance(62) {
-		return caseDesc{Store: "badger", Typed: r.Bool(), Prefix: r.Pick([]string{"", "", "p", "x.y"}), BeforeChange: r.Chance(65), Listeners: 1 + r.Intn(3)}
+		// which observers are registered: none at all, only BeforeChange, only OnChange, both, several of each
+		cd := caseDesc{Store: "badger", Typed: r.Bool(), Prefix: r.Pick([]string{"", "", "p", "x.y"}), BeforeChange: r.Chance(60), Listeners: 1 + r.Intn(3)}
+		genObservers(r, &cd)
+		return cd
 	}
-	return caseDesc{Store: "mock", NewID: r.Bool()}
+	cd := caseDesc{Store: "mock", NewID: r.Bool()}
+	genObservers(r, &cd)
+	return cd
+}
+
+func genObservers(r *Rng, cd *caseDesc) {
+	switch k := r.Intn(100); {
+	case k < 30:
+		cd.NoOnChange = true
+	case k < 75:
+	default:
+		cd.OnChangeMore = 1 + r.Intn(2)
+	}
 }
 
 // shadow is only a generation heuristic (which ids probably exist), never an oracle.
@@ -1415,8 +1521,9 @@ func genDirectedUnenc() []caseDesc {
 		{Store: "badger", Typed: true, Prefix: "p", BeforeChange: true, Listeners: 2},
 		{Store: "badger", Typed: false, Prefix: "", BeforeChange: true, Listeners: 1},
 		{Store: "badger", Typed: true, Prefix: ""},
-		{Store: "badger", Typed: false, Prefix: "x.y"},
-		{Store: "mock", NewID: true},
+		{Store: "badger", Typed: false, Prefix: "x.y", NoOnChange: true},
+		{Store: "badger", Typed: true, Prefix: "", BeforeChange: true, Listeners: 3, NoOnChange: true},
+		{Store: "mock", NewID: true, OnChangeMore: 1},
 		{Store: "mock"},
 	}
 	var out []caseDesc
@@ -1534,6 +1641,8 @@ func main() {
 			{Store: "badger", Typed: true, Prefix: "p", BeforeChange: true, Listeners: 2},
 			{Store: "badger", Typed: false, Prefix: "", BeforeChange: true, Listeners: 1},
 			{Store: "mock", NewID: true},
+			{Store: "badger", Typed: false, Prefix: "p", NoOnChange: true}, // no listener of any kind
+			{Store: "mock", NoOnChange: true},
 		}
 		exLen := 2
 		if thorough {
@@ -1541,7 +1650,9 @@ func main() {
 			exCfgs = append(exCfgs,
 				caseDesc{Store: "badger", Typed: true, Prefix: ""},
 				caseDesc{Store: "badger", Typed: false, Prefix: "p"},
-				caseDesc{Store: "mock"})
+				caseDesc{Store: "mock"},
+				caseDesc{Store: "badger", Typed: true, Prefix: "", BeforeChange: true, Listeners: 2, NoOnChange: true}, // only BeforeChange
+				caseDesc{Store: "badger", Typed: true, Prefix: "x.y", OnChangeMore: 2})
 		}
 		for _, cfg := range exCfgs {
 			for _, cd := range genExhaustive(cfg, exLen) {
@@ -1572,12 +1683,13 @@ func main() {
 			niso, rounds = 4, 4000
 		}
 		for i := 0; i < niso; i++ {
-			add("isolation", runIsolation(genIsolation(r, "badger", false, "iso", rounds)))
-			add("isolation", runIsolation(genIsolation(r, "badger", true, "", rounds*2/3)))
-			add("isolation", runIsolation(genIsolation(r, "mock", false, "", rounds/3)))
+			add("isolation", runIsolation(genIsolation(r, "badger", false, "iso", rounds, i%4)))
+			add("isolation", runIsolation(genIsolation(r, "badger", true, "", rounds*2/3, (i+1)%4)))
+			add("isolation", runIsolation(genIsolation(r, "badger", r.Bool(), "q", rounds/3, 2+int(o.Seed+uint64(i))%2)))
+			add("isolation", runIsolation(genIsolation(r, "mock", false, "", rounds/3, int(o.Seed+uint64(i))%2*1)))
 		}
 	}
 	Emit(o, "C11", "From GoRes Require Import Run.Run_C11.", "kcase",
-		"histories of Create/Update/Delete/Value/Exists through Read/Write transactions of the real badgerstore (scratch BadgerDB; typed/untyped, prefix \"\"/p/x.y, with/without a vetoing BeforeChange) and mockstore (with/without NewID): all histories of <=2 (thorough <=3) single-operation transactions over ids {a,\"\"}, random sequential histories of 1-25 operations over {a,b,c,\"\"} with 1-4 operations per transaction, a pool of 3 payloads per id (Updates to the stored value are common), 1-3 BeforeChange listeners whose vetoes come from a per-call flag, a per-id switch toggled mid-history or a marker in the value, BeforeChange calls recorded per operation, 9% of the written values of the right type but unencodable (NaN, +-Inf, func, chan, failing MarshalJSON, flat or nested; also in 288 directed histories that go on using the id afterwards), and concurrent runs of 2-6 goroutines x 5-20 transactions over 2-3 ids serialised by observed lock acquisition order, and isolation runs of 8-16 goroutines each owning one id for 400-1200 (thorough up to 4000) write/read-back rounds (incl. vetoed Updates, half of them to the stored value) with owner- and round-stamped values of 30-1500 bytes, checked on the spot, at the end and after reopening the database (first 8 rounds per id also go to the Coq oracle); non-trivial = at least two successful mutations, or a read of the transaction's own write, or a concurrent run; distinct by the whole observed history",
+		"histories of Create/Update/Delete/Value/Exists through Read/Write transactions of the real badgerstore (scratch BadgerDB; typed/untyped, prefix \"\"/p/x.y) and mockstore (with/without NewID), every section with stores that have no listener at all, only BeforeChange, only OnChange, both, or several of each (0-3 of each kind; further OnChange listeners must see what the first saw, in registration order; without OnChange listener the callback expectations are vacuous and results, reads and final content are still compared): all histories of <=2 (thorough <=3) single-operation transactions over ids {a,\"\"}, random sequential histories of 1-25 operations over {a,b,c,\"\"} with 1-4 operations per transaction, a pool of 3 payloads per id (Updates to the stored value are common), 1-3 BeforeChange listeners whose vetoes come from a per-call flag, a per-id switch toggled mid-history or a marker in the value, BeforeChange calls recorded per operation, 9% of the written values of the right type but unencodable (NaN, +-Inf, func, chan, failing MarshalJSON, flat or nested; also in 336 directed histories that go on using the id afterwards), and concurrent runs of 2-6 goroutines x 5-20 transactions over 2-3 ids serialised by observed lock acquisition order, and isolation runs of 8-16 goroutines each owning one id for 400-1200 (thorough up to 4000) write/read-back rounds (incl. vetoed Updates, half of them to the stored value) with owner- and round-stamped values of 30-1500 bytes, checked on the spot, at the end and after reopening the database (first 8 rounds per id also go to the Coq oracle); non-trivial = at least two successful mutations, or a read of the transaction's own write, or a concurrent run; distinct by the whole observed history",
 		cases, dist, nil, impl, 300)
 }
